@@ -315,6 +315,15 @@ fn judge_classified(input: &str, subject: Subject, out: &str, prefix: &str) -> V
     dev.into_iter().map(|(s, w)| (classify(input, subject, &format!("{}{}", prefix, s)), w)).collect()
 }
 
+/// A rendering whose layout (`<number> | <text>` rows, blank-gutter marker rows) this monitor cannot
+/// read says nothing about the property either way: the run is inconclusive, not a violation.
+fn unparseable(l: &mut Local, input: &str, out: &str, why: &str) {
+    l.count("unparseable_layout");
+    if l.inconclusive.len() < 3 {
+        l.inconclusive.push(format!("rendering of input {:?} has a layout the C14 oracle cannot read ({}): {:?}", input, why, out));
+    }
+}
+
 fn check(l: &mut Local, input: &str, subject: Subject, class: &str) {
     l.evaluations += 1;
     let nontrivial = !input.is_empty();
@@ -336,6 +345,10 @@ fn check(l: &mut Local, input: &str, subject: Subject, class: &str) {
         Ok(out) => {
             l.count("rendered_default");
             for (sig, what) in judge_classified(input, subject, out, "") {
+                if sig.ends_with("/unparseable") {
+                    unparseable(l, input, out, &what);
+                    continue;
+                }
                 l.violation(sig, what, wit(json!({"rendered": out})));
             }
         }
@@ -348,6 +361,10 @@ fn check(l: &mut Local, input: &str, subject: Subject, class: &str) {
             l.count("rendered_custom");
             let stripped = strip(out);
             for (sig, what) in judge_classified(input, subject, &stripped, "custom/") {
+                if sig.ends_with("/unparseable") {
+                    unparseable(l, input, out, &what);
+                    continue;
+                }
                 l.violation(sig, what, wit(json!({"rendered": out})));
             }
             // how often each formatter was used (observability of the option plumbing)
